@@ -171,9 +171,13 @@ func cmdRun(args []string) int {
 	seed := fs.Uint64("seed", 1, "")
 	verif := fs.String("verif", "/verif", "")
 	tmp := fs.String("tmp", "", "")
+	outDir := fs.String("out", "", "where evidence/ and replays/ are written (default: the -verif directory)")
 	workers := fs.Int("workers", 0, "")
 	runsFlag := fs.Int("runs", 0, "")
 	fs.Parse(args)
+	if *outDir == "" {
+		*outDir = *verif
+	}
 	start := time.Now()
 	p, ok := sim.Props[*prop]
 	if !ok {
@@ -297,7 +301,7 @@ func cmdRun(args []string) int {
 	exit := 0
 	nviol := 0
 	var knownHit []string
-	os.MkdirAll(filepath.Join(*verif, "replays"), 0o755)
+	os.MkdirAll(filepath.Join(*outDir, "replays"), 0o755)
 	for _, sig := range sigs {
 		v := bySig[sig]
 		isKnown := false
@@ -311,7 +315,7 @@ func cmdRun(args []string) int {
 		if isKnown {
 			continue
 		}
-		path := filepath.Join(*verif, "replays", fmt.Sprintf("%s-%d-%d-%s.json", *prop, v.Scenario.Seed, v.Scenario.Run, sanitize(sig)))
+		path := filepath.Join(*outDir, "replays", fmt.Sprintf("%s-%d-%d-%s.json", *prop, v.Scenario.Seed, v.Scenario.Run, sanitize(sig)))
 		rf := replayFile{Property: *prop, Signature: sig, Clause: v.Clause, Detail: v.Detail, Expected: v.Expected, Got: v.Got, Unseamed: v.Unseamed, Scenario: v.Scenario}
 		b, _ := json.MarshalIndent(rf, "", " ")
 		if err := os.WriteFile(path, b, 0o644); err != nil {
@@ -382,9 +386,9 @@ func cmdRun(args []string) int {
 			cov[k] = v
 		}
 	}
-	os.MkdirAll(filepath.Join(*verif, "evidence"), 0o755)
+	os.MkdirAll(filepath.Join(*outDir, "evidence"), 0o755)
 	b, _ := json.MarshalIndent(ev, "", " ")
-	if err := os.WriteFile(filepath.Join(*verif, "evidence", *prop+".json"), b, 0o644); err != nil {
+	if err := os.WriteFile(filepath.Join(*outDir, "evidence", *prop+".json"), b, 0o644); err != nil {
 		fmt.Fprintln(os.Stderr, "twsim:", err)
 		return 2
 	}
